@@ -51,14 +51,17 @@ pub(super) fn contiguous_meta_address_to_address(
     } else {
         relative_meta_addr >> (-shift)
     };
-    let data_addr_bit_shift = if shift >= 0 {
-        metadata_spec.log_bytes_in_region - metadata_spec.log_num_of_bits
+    // The bit offset within the metadata byte counts metadata bits; turn it into a number of
+    // regions (divide by bits-per-region) and then into data bytes (multiply by region size).
+    // A spec may have more metadata bits per region than data bytes per region.
+    let bit_offset_in_data_bytes = if shift >= 0 {
+        ((bit as usize) >> metadata_spec.log_num_of_bits) << metadata_spec.log_bytes_in_region
     } else {
-        metadata_spec.log_bytes_in_region
+        (bit as usize) << metadata_spec.log_bytes_in_region
     };
 
-    let data_addr = (data_addr_intermediate << metadata_spec.log_bytes_in_region)
-        + ((bit as usize) << data_addr_bit_shift);
+    let data_addr =
+        (data_addr_intermediate << metadata_spec.log_bytes_in_region) + bit_offset_in_data_bytes;
 
     unsafe { Address::from_usize(data_addr) }
 }
